@@ -159,15 +159,18 @@ pub fn oracle(c: &Corpus, _seed: u64, tier: &str) -> Vec<Report> {
             if *n >= 1 { cands.insert((*e, "helper")); }
         }
         // bracket groups with a top-level comma: before the closer
-        let mut stack: Vec<bool> = vec![];
+        // (saw a top-level comma, saw anything but numbers/commas/whitespace): groups made of numbers
+        // only are fixed-arity tuples (`DECIMAL(10, 2)`, row-pattern `{2,3}`), not lists
+        let mut stack: Vec<(bool, bool)> = vec![];
         for (ri, t) in toks.iter().enumerate() {
             match &t.token {
-                Token::LParen | Token::LBracket | Token::LBrace => stack.push(false),
-                Token::Comma => { if let Some(x) = stack.last_mut() { *x = true; } }
+                Token::LParen | Token::LBracket | Token::LBrace => { if let Some(x) = stack.last_mut() { x.1 = true; } stack.push((false, false)) }
+                Token::Comma => { if let Some(x) = stack.last_mut() { x.0 = true; } }
                 Token::RParen | Token::RBracket | Token::RBrace => {
-                    if stack.pop() == Some(true) { cands.insert((ri, "bracket")); }
+                    if stack.pop() == Some((true, true)) { cands.insert((ri, "bracket")); }
                 }
-                _ => {}
+                Token::Number(..) | Token::Whitespace(_) => {}
+                _ => { if let Some(x) = stack.last_mut() { x.1 = true; } }
             }
         }
         for (e, how) in cands {
